@@ -287,4 +287,25 @@ def syncTokens : List String :=
 def stmtDispatch : List String :=
   ["tPRINT", "tEVAL", "tDEF", "tBIND"]
 
+/- source: lex.go:32 -/
+def tokensBufSize : Nat :=
+  10
+
+/- source: api.go:48, api.go:38, parse.go:7, lex.go:14, lex.go:46, lex.go:53, lex.go:62, lex.go:79, lex.go:25, parse.go:474 -/
+def concSkeleton : List (String × List String) :=
+  [("ParseFile", ["makechan 0", "makechan 0", "makechan 0", "makechan 0", "go{", "defer f.Close()", "for {", "call f.Read", "if err != nil && err != io.EOF {", "send rerr", "break", "}", "if err == io.EOF {", "if n > 0 {", "send inpc", "}", "send rerr", "break", "}", "select{", "case send inpc:", "continue", "case recv done:", "send rerr", "return", "}", "}", "close inpc", "}", "go{", "call parseWithOpts", "if err != nil {", "close done", "}", "set prog", "send perr", "}", "recv rerr", "recv perr", "return"]),
+   ("Parse", ["makechan 1", "send c", "close c", "call parseWithOpts", "return"]),
+   ("parse", ["call newLexer", "for !p.matchEnd() {", "}", "if p.hadError {", "return", "}", "return"]),
+   ("newLexer", ["makechan tokensBufSize", "go{", "call l.run", "}", "return"]),
+   ("lexer.run", ["for state != nil {", "}", "close l.tokens"]),
+   ("lexer.emit", ["send l.tokens"]),
+   ("lexer.emitError", ["send l.tokens"]),
+   ("lexer.next", ["for l.pos >= len(l.input) || !utf8.FullRuneInString(l.input[l.pos:]) {", "recv l.inputs", "if !ok {", "if l.pos < len(l.input) {", "break", "}", "if l.pos == l.start {", "return", "}", "}", "call l.lpUpd", "if !ok {", "break", "}", "}", "if l.width == 0 {", "return", "}", "return"]),
+   ("lexer.nextToken", ["recv l.tokens", "return"]),
+   ("parser.advance", ["for {", "call p.lexer.nextToken", "if !ok {", "return", "}", "if p.current.typ != tERR {", "break", "}", "}"])]
+
+/- source: all functions of package bcl (175) -/
+def chanUsers : List String :=
+  []
+
 end Bclv.Gen
